@@ -114,7 +114,12 @@ class ReverseProxy(TcpUpstreamConnectionHandler, HttpWebServerBasePlugin):
                 if self.choice.scheme == HTTP_PROTO
                 else self.choice.port or DEFAULT_HTTPS_PORT
             )
-            self.initialize_upstream(text_(self.choice.hostname), port)
+            # IPv6 literals carry their brackets in the URL,
+            # the socket layer expects the bare address.
+            connect_host = text_(self.choice.hostname)
+            if connect_host.startswith('[') and connect_host.endswith(']'):
+                connect_host = connect_host[1:-1]
+            self.initialize_upstream(connect_host, port)
             assert self.upstream
             try:
                 self.upstream.connect()
